@@ -243,7 +243,8 @@ def run(case: dict, ctx) -> dict:
     desc = None
     if k == "hosted":
         grain = rng.choice([1, 2, 4, 8, 8, 16, 64, 128, 256, 2048, 8192])  # up to 4 MiB grains
-        ngte = rng.choice([512, 512, 512, 64, 128, 1024])
+        # (the entry count of a grain table is a header field; VMware writes 512, nothing requires a power of two)
+        ngte = rng.choice([512, 512, 512, 64, 128, 1024, 100, 24, 384, 129])
         cap = _cap(rng, grain, ngte, 6000 if grain < 64 else (20000 if grain < 2048 else 6 * grain))
         if rng.random() < 0.4:
             # (a disk without a parent - parentCID ffffffff - may still carry the file name hint of a parent it once had)
@@ -256,7 +257,7 @@ def run(case: dict, ctx) -> dict:
         if rng.random() < 0.35:
             # several small grain tables, some of them absent
             grain = rng.choice([1, 2, 8])
-            ngte = rng.choice([64, 128])
+            ngte = rng.choice([64, 128, 96, 50, 7])
             cap = grain * ngte * rng.randrange(2, 7) + rng.randrange(0, grain * ngte)
         tight_gd = not far and rng.random() < 0.15
         if tight_gd:
